@@ -92,6 +92,9 @@ var ruleUnmarshalID = &Rule{
 		textArgs := func(c *ssa.Call) []ssa.Value {
 			var as []ssa.Value
 			for _, a := range c.Call.Args {
+				if isErrorType(a.Type()) {
+					continue // a sentinel handed along is not text
+				}
 				switch t := a.Type().Underlying().(type) {
 				case *types.Basic:
 					if t.Info()&types.IsString != 0 {
